@@ -5,9 +5,11 @@
      pos[k+1] = <<l, c>> reference position of boundary k;  mid[k+1]  k is inside a CR LF pair
               (then <<l + 1, 0>> is accepted as well)
      grid   every position <<l, c>> with l <= lines + 1, c <= longest line + 1:
-              <<l, c, k, w>>   k = the boundary the conversion must return (-1: Unspecified),
+              [l, c, k, w, crlf]   k = the boundary the conversion must return (-1: Unspecified),
                                w = the command whose documentation a hover there must show on an
                                    error-free document ("" = not prescribed)
+                               crlf = the position is a line start after CR LF (names the class
+                                   of a failing case; see LspPos CRLFLineStartT)
    Initial states choose the text; the successor (ph = 1) carries the tables and is printed. *)
 EXTENDS LspReply, TLC, Json
 CONSTANT N
@@ -25,7 +27,8 @@ GridSeq == LET nl == tab[Len(tab)][1] + 2
                  LET l == (i - 1) \div nc
                      c == (i - 1) % nc
                      k == IF RequiredT(Text, tab, l, c) THEN IdxT(Text, tab, l, c) ELSE AnyIdx
-                 IN [l |-> l, c |-> c, k |-> k, w |-> IF k = AnyIdx THEN "" ELSE WordAt(sym, k)]]
+                 IN [l |-> l, c |-> c, k |-> k, w |-> IF k = AnyIdx THEN "" ELSE WordAt(sym, k),
+                     crlf |-> CRLFLineStartT(Text, tab, l, c)]]
 \* sanity of what is emitted (design-level): a prescribed boundary has exactly that position
 GridSound == ph = 1 => \A i \in 1..Len(GridSeq) :
                 LET g == GridSeq[i] IN g.k # AnyIdx => (tab[g.k + 1] = <<g.l, g.c>> /\ ~MidCRLF(Text, g.k))
